@@ -210,7 +210,7 @@ fn fold_case() -> impl Strategy<Value = FoldCase> {
 }
 
 /// fold_i of the input padded with high-order zeros to a multiple of 2^depth (little-endian), i = 1..=depth
-fn naive_folds(f: &[Fr], ch: &[Fr]) -> Vec<Vec<Fr>> {
+pub fn naive_folds(f: &[Fr], ch: &[Fr]) -> Vec<Vec<Fr>> {
     let depth = ch.len();
     let chunk = 1usize << depth;
     let mut cur = f.to_vec();
